@@ -194,7 +194,8 @@ Definition hdr_field (k : bytes) (h : headers) : bytes :=
 Definition cors_keys : list bytes := [ACAO; ACAC; ACAM; ACAH; ACEH; ACMA; VARY].
 
 Definition creq_of (o : line) : creq :=
-  {| q_method := arg 1 o; q_path := arg 2 o; q_origin := arg 3 o; q_acrm := arg 4 o; q_acrh := arg 5 o |}.
+  (* several Origin lines are separated by 0x1f; Header.Get sees the first *)
+  {| q_method := arg 1 o; q_path := arg 2 o; q_origin := nth 0 (split_byte 31 (arg 3 o)) []; q_acrm := arg 4 o; q_acrh := arg 5 o |}.
 
 Definition creq_obs (s : srt) (o : line) : list bytes :=
   let q := creq_of o in
@@ -384,6 +385,7 @@ Definition serve_clauses (s : srt) (o : line) (r : list bytes) : list bytes :=
     | None => []
     end in
   resolution ++ framec ++
+  (if trace && beqb method TRACE then check (beqb core (bs "TR")) "C18:trace-request-not-answered-by-the-trace-handler" else []) ++
   if beqb core (bs "NF") then
     check (match ps with [] => true | _ => false end) "C01:404-reports-parameters" ++
     check (negb hasnode) "C01:404-reports-a-route" ++
@@ -398,7 +400,8 @@ Definition serve_clauses (s : srt) (o : line) (r : list bytes) : list bytes :=
       check (beqb method OPTIONS && (beqb path (bs "*") || beqb path [])) "C01:root-for-ordinary-path" ++
       check (star_ok trace (live s) (split_byte 44 methods) &&
              beqb allow (join (bs ", ") (split_byte 44 methods)) && beqb cap allow) "C04:options-star-allow" ++
-      check (beqb term (print_h (expected_star s))) "C09:options-star-middlewares"
+      check (beqb term (print_h (expected_star s))) "C09:options-star-middlewares" ++
+      (if trace then check (mem TRACE (split_byte 44 methods)) "C18:trace-missing-from-allow" else [])
     else if beqb core (bs "NA") then
       check (beqb path (bs "*") || beqb path []) "C01:root-for-ordinary-path"
     else [cl "C01:user-handler-at-root"]
@@ -713,7 +716,9 @@ Definition tracehelper_clauses (o : line) (r : list bytes) : list bytes :=
   let hs := pairs (skipn 3 r) in
   check (beqb (nth 0 r []) (bs "200")) "C18:trace-helper-status" ++
   check (beqb (opt_default [] (alookup content_type hs)) message_http) "C18:trace-helper-content-type-not-sent" ++
-  check (beqb (nth 1 r []) (arg 2 o)) "C18:trace-helper-body-is-not-the-escaped-dump".
+  check (beqb (nth 1 r []) (arg 2 o)) "C18:trace-helper-body-is-not-the-escaped-dump" ++
+  check (match alookup content_length hs with Some v => beqb v (nth 1 r []) | None => true end)
+        "C18:trace-helper-content-length-disagrees-with-body".
 
 Definition is_observation (op : bytes) : bool :=
   beqb op (bs "serve") || beqb op (bs "routes") || beqb op (bs "dump") || beqb op (bs "url").
